@@ -1,0 +1,53 @@
+//go:build verif
+
+// Contracts for the deductive checker in /verif (read only with -tags verif).
+
+package bn256
+
+// ---- strict decoding (C09): a G1/G2/GT encoding is accepted only if every 32-byte coordinate is a
+// canonical field element (big-endian value below the field prime GFPV()); no panic for any input.
+// The field arithmetic itself (Montgomery conversion, curve equation, square roots) is not under
+// contract here: those calls are havocked, so nothing is claimed about on-curve checks.
+//@ pred canon(A, m, k) := BEV(A, offof(m) + 32 * k, 32) < GFPV()
+
+// decoding of one coordinate: an error exactly for short input or a value >= p (lessThanP, assumed)
+//@ func (*gfP).Unmarshal trusted
+//@   params in
+//@   ensures len(in) >= 32 ==> (err == nil <==> BEV(arr(in), offof(in), 32) < GFPV())
+//@   ensures len(in) < 32 ==> err != nil
+//@   modifies *self
+
+// (plain copy of four words)
+//@ func (*gfP).Set trusted
+//@   modifies *self
+
+//@ func (*G1).Unmarshal property C09,C13
+//@   let A0 := arr(m)
+//@   ensures err == nil ==> len(m) >= 64 && canon(A0, m, 0) && canon(A0, m, 1) && sameslice(result0, m[64:])
+//@   heapnonnil
+//@   modifies everything
+
+//@ func (*G1).UnmarshalCompressed property C09,C13
+//@   let A0 := arr(data)
+//@   ensures err == nil ==> len(data) >= 33 && (old(data[0]) == 2 || old(data[0]) == 3) && BEV(A0, offof(data) + 1, 32) < GFPV() && sameslice(result0, data[33:])
+//@   heapnonnil
+//@   modifies everything
+
+//@ func (*G2).Unmarshal property C09,C13
+//@   let A0 := arr(m)
+//@   ensures err == nil ==> len(m) >= 128 && canon(A0, m, 0) && canon(A0, m, 1) && canon(A0, m, 2) && canon(A0, m, 3) && sameslice(result0, m[128:])
+//@   heapnonnil
+//@   modifies everything
+
+//@ func (*G2).UnmarshalCompressed property C09,C13
+//@   havoccall MulScalar
+//@   let A0 := arr(data)
+//@   ensures err == nil ==> len(data) >= 65 && (old(data[0]) == 2 || old(data[0]) == 3) && BEV(A0, offof(data) + 1, 32) < GFPV() && BEV(A0, offof(data) + 33, 32) < GFPV() && sameslice(result0, data[65:])
+//@   heapnonnil
+//@   modifies everything
+
+//@ func (*GT).Unmarshal property C09,C13
+//@   let A0 := arr(m)
+//@   ensures err == nil ==> len(m) >= 384 && canon(A0, m, 0) && canon(A0, m, 1) && canon(A0, m, 2) && canon(A0, m, 3) && canon(A0, m, 4) && canon(A0, m, 5) && canon(A0, m, 6) && canon(A0, m, 7) && canon(A0, m, 8) && canon(A0, m, 9) && canon(A0, m, 10) && canon(A0, m, 11) && sameslice(result0, m[384:])
+//@   heapnonnil
+//@   modifies everything
